@@ -112,15 +112,20 @@ def run(check, an: Analysis):
     for fn, node, kind, detail in uses:
         where = '%s:%d' % (fn.module.relpath, node.lineno)
         if kind == 'call' and detail == 'append':
-            ok = fn.name == '__child_finished__' and len(node.args) == 1 and \
+            # in __child_finished__ itself, or in a private helper of it (rule paths run
+            # private helpers in place: the guard is looked for on the paths of the entry)
+            private = fn.name.startswith('_') and not fn.name.startswith('__')
+            ok = (fn.name == '__child_finished__' or private) and len(node.args) == 1 and \
                 ast.unparse(node.args[0]).endswith('.__exception__')
-            guarded = False
-            callee = Callee(fn, SCOPE)
+            guarded, reached = True, 0
+            callee = an.callee(SCOPE, '__child_finished__')
             for path in an.paths(callee):
-                for event in path.events:
+                for index, event in enumerate(path.events):
                     if event.node is node and event.kind == 'call':
-                        guarded = any(tested(e, ('truth', 'failed'), True)
-                                      for e in path.events)
+                        reached += 1
+                        guarded &= any(tested(e, ('truth', 'failed'), True)
+                                       for e in path.events[:index])
+            guarded = guarded and reached > 0
             check.instance('X', '%s:append' % short(fn.qn), ok and guarded, where,
                            'failures are recorded by __child_finished__ under `failed` as '
                            'child.__exception__')
